@@ -22,9 +22,24 @@ def rule_addr_guard(fx, col):
         cas = [s for s in sites if s.cls == 'control' and s.op.startswith('compare_exchange')]
         addr_loads = [s for s in sites if s.cls == 'active_addr' and s.op == 'load']
         repl_calls = [(bb, t) for bb, t in b.calls(include_cleanup=False) if t['callee'].get('self_is_param') and (t['callee'].get('trait_pretty') or '').endswith(('ops::Fn', 'ops::FnMut', 'ops::FnOnce'))]
-        if not col.anchor('ADDR-GUARD', '%s|anchors' % fn, cas and addr_loads and repl_calls,
-                          'control CAS %d, active_addr loads %d, replacement calls %d' % (len(cas), len(addr_loads), len(repl_calls))):
+        if not col.anchor('ADDR-GUARD', '%s|anchors' % fn, cas and addr_loads,
+                          'control CAS %d, active_addr loads %d' % (len(cas), len(addr_loads))):
             continue
+        # REPLACEMENT-FRESH: what is handed over was produced by the caller's closure in this very iteration
+        ho = [s for s in sites if s.cls == 'handover' and s.op in ('store', 'swap')]
+        thr = lambda tt: [0] if U.callee_name(tt) in ('as_ptr', 'deref', 'borrow') else None
+        for hs in ho:
+            src = b.origins(hs.arg(1), through_calls=thr, binops=True)
+            calls = {o[1] for o in src if o[0] == 'call'}
+            direct = {bb for bb, _ in repl_calls}
+            lp = [bl for h, bl, tl in b.loops() if hs.bb in bl]
+            same_iter = all(x in (lp[0] if lp else set(range(b.n))) and b.dominates(x, hs.bb) for x in calls)
+            ok = bool(calls) and calls <= direct and same_iter and all(o[0] == 'call' for o in src)
+            others = sorted(U.callee_name(b.term(x)) for x in calls - direct)
+            col.add('REPLACEMENT-FRESH', '%s|offered value' % fn, ok,
+                    'the value written into the envelope is the result of replacement() called in the same retry iteration' if ok else
+                    'the value offered to the reader does not come straight from a replacement() call of this iteration (comes through: %s): it may predate the reader\'s current transaction' % (others or sorted(src)), hs.loc)
+        col.floor('REPLACEMENT-FRESH', 'hand-over stores in %s' % fn, len(ho), 1)
         loops = b.loops()
         for c in cas:
             lp = [(h, bl) for h, bl, tl in loops if c.bb in bl]
